@@ -66,6 +66,11 @@ Layouts ==
     [] Slice = "reordered" ->     \* DATA before TEXT: same contents, other segment order
          {DataFirst(l) : l \in {l \in IntLayouts({"2.0", "3.1"}, {"4321", "12"}, {8, 16, 24}, {"pow", "np"}, {0, 2}, {0, 3}, {"asc"}) : WellFormedI(l)}
                                \cup {l \in AnalysisLayouts : ((l.off = "text" \/ l.an = "text") => IsV3(l.ver)) /\ l.nx = 0 /\ l.pad = 3}}
+    [] Slice = "many-par" ->      \* ten and more parameters ($P10B sorts before $P2B as text), mixed widths
+         {Lay(v, "I", "L", bo, ws, [p \in 1..Len(ws) |-> rk], 2, off, "last", 0, ev, FALSE) :
+            v \in {"2.0", "3.1"}, bo \in {"4321", "1234"}, rk \in {"pow", "np"}, off \in {"header"}, ev \in {"asc", "ones"},
+            ws \in {<<8, 16, 8, 16, 8, 16, 8, 16, 8, 16, 24>>, <<16, 16, 16, 16, 16, 16, 16, 16, 16, 32, 8, 8>>,
+                    <<8, 8, 8, 8, 8, 8, 8, 8, 8, 8>>, <<32, 16, 8, 24, 16, 16, 8, 8, 16, 16, 40, 8, 16>>}}
     [] Slice = "unsupported" -> Unsupported
     [] Slice = "patterns" -> {l \in PatternLayouts : Len(l.rk) >= Len(l.widths)}
     [] OTHER -> {}
